@@ -35,7 +35,7 @@ def base_defs(flavour, base_t, sz):
     return {'S_T': ct, 'KMAX': mx, 'FLAVOUR': str(flavour), 'BASE_T': 'struct ' + base_t,
             'GHOST_ASSIGNS': 'l0_exc, g_cell_obj, g_cell_off, g_cell_st, g_cell_val, g_tok_on, g_tok_obj, g_tok_off, g_tokval, g_blk_obj, g_blk_bytes, '
                              'g_blk_state, g_nalloc, g_ndealloc, g_nrealloc, g_nctor, g_nassign, g_ndtor, g_nmove, g_nbytecopy, g_ncmp, g_tmp_obj, g_tmp_has, g_tmp_val, g_cmp_obj1, '
-                             'g_cmp_off1, g_cmp_n1, g_cmp_obj2, g_cmp_off2, g_cmp_n2, g_cmp_kind'}
+                             'g_cmp_off1, g_cmp_n1, g_cmp_obj2, g_cmp_off2, g_cmp_n2, g_cmp_kind SETS_GHOST_ASSIGNS'}
 
 def units():
     us = []
@@ -117,6 +117,23 @@ def units():
                                   ('swap__r' + V4, ['C01', 'C02', 'C05', 'C06', 'C07'], [b + '__swap_impl__r' + b])]:
                 add('vec4.%s.%s.%s' % (m.split('__')[0] + '_' + m.split('__')[1][:4], et, sz), V4 + '__' + m, props, 1, b, sz, elem, replace=rep)
                 us[-1]['defs']['VEC_N'] = '4'
+    # ---- FlatSet over amc::vector<E, A, size_type>: 8-bit size_type in the quick tier, the default 32-bit one in the thorough tier
+    for fsz, tier in (('u8', 'quick'), ('u32', 'thorough')):
+        FS = 'FlatSet_E_GhostCmp_A_Vector_E_A_%s_Dyn_0' % fsz
+        for m, props in [('find__rE_c', ['C03', 'C19', 'C20']), ('contains__rE_c', ['C03', 'C19', 'C20']), ('count__rE_c', ['C03', 'C19', 'C20']),
+                         ('lower_bound__rE_c', ['C03', 'C19', 'C20']), ('upper_bound__rE_c', ['C03', 'C19', 'C20']),
+                         ('equal_range__rE_c', ['C03', 'C19', 'C20']),
+                         ('insert__rE', ['C03', 'C02', 'C09', 'C12', 'C19']), ('insert__rrE', ['C03', 'C02', 'C09', 'C12', 'C19']),
+                         ('insert__pE_rE', ['C03', 'C02', 'C09', 'C12', 'C19']), ('insert__pE_rrE', ['C03', 'C02', 'C09', 'C12', 'C19']),
+                         ('erase__rE', ['C03', 'C02', 'C09', 'C19']), ('size__v_c', ['C03', 'C20']), ('empty__v_c', ['C03', 'C20']),
+                         ('begin__v_c', ['C03', 'C20']), ('end__v_c', ['C03', 'C20']), ('clear__v', ['C03', 'C02'])]:
+            add('fs.%s.NR.%s' % (m.replace('__', '_'), fsz), FS + '__' + m, props, 2, 'StdVectorBase_E_A_' + fsz, fsz, 'ElemNR', tier=tier,
+                throws_reachable=m.startswith('insert'), timeout=(600 if fsz == 'u8' else 2400))
+            us[-1]['cfg'] = 'sets17'
+            us[-1]['defs']['WITH_SETS'] = '1'
+            us[-1]['defs']['FS_T'] = 'struct ' + FS
+            if m.startswith('insert__pE'):
+                us[-1]['cases'] = ['g_has && HINT_A', 'g_has && !HINT_A', '!g_has && HINT_A']
     for sz in ('u8',):
         add('SafeNextCapacity.%s' % sz, 'SafeNextCapacity__%s_u64_b' % sz, ['C08', 'C18'], 1, svb('ElemNR', sz), sz, 'ElemNR')
     add('ExceptionGrowingPolicy.Check', 'Exc__Check__u64_u64', ['C08'], 1, svb('ElemNR', 'u8'), 'u8', 'ElemNR')
